@@ -1,6 +1,7 @@
 import Cose.Props.C01
 import Cose.Props.C09
 import Cose.Props.C05
+import Cose.Props.C01Enc
 /-!
 # C01 — COSE_Sign1 / COSE_Mac0 round trip with a caller-supplied protected header map
 
@@ -167,6 +168,120 @@ theorem auth4_roundtrip_prot (k : Kind) (hk : k = .sign1 ∨ k = .mac0) (pv pv' 
     auth4_roundtrip_prot_gen k hk pv pv' mode payload ext prot unprot key vkey auth check hcorr pb hpbytes
       (hpbl pb henc) pm hpm hmm hpw hpf m1 h w hw u hu u' heq huw hud uh huf hpl hsl
   exact ⟨bytes, m2, w2, pm, h1, h2, h3, by rw [h4, h5], h6, h7, h8, h9, hlook, h10, h11⟩
+
+/-- what a non-empty caller-supplied protected map becomes: the bytes `Headers.Bytes()` gives, and the map those bytes
+    decode to — which answers every look-up like the original and passes the same algorithm check -/
+theorem supplied_bucket (prot : CMap) (alg : Int)
+    (hne : prot ≠ []) (hok : ∀ kv ∈ prot, EntryOk kv) (hnd : (prot.map (·.1)).Nodup) (hlen : prot.length ≤ maxElems) :
+    ∃ pb pm, encodeCMap prot = some pb ∧ hdrBytes (some prot) = .ok pb ∧ hdrFromBytes (some pb) = .ok pm ∧
+      (∀ l, pm.lookup l = (prot.lookup l).map normV) ∧ algMismatch pm alg = algMismatch prot alg := by
+  obtain ⟨pb, pm, henc, hdec, _, hlook⟩ := cmap_roundtrip prot hok hnd hlen
+  have hpbytes : hdrBytes (some prot) = .ok pb := by
+    cases prot with
+    | nil => exact absurd rfl hne
+    | cons a r => simp only [hdrBytes, henc]
+  have hpbne : pb ≠ [] := by
+    unfold encodeCMap at henc
+    cases hc : prot.toCbor with
+    | none => simp [hc] at henc
+    | some c => simp only [hc, Option.map_some, Option.some.injEq] at henc; rw [← henc]; exact encode_ne_nil c
+  have hpm : hdrFromBytes (some pb) = .ok pm := by
+    cases pb with
+    | nil => exact absurd rfl hpbne
+    | cons a r => simpa only [hdrFromBytes] using hdec
+  exact ⟨pb, pm, henc, hpbytes, hpm, hlook, algMismatch_of_lookup prot pm alg hok hnd hlook⟩
+
+/-- **COSE_Encrypt0 round trip with a caller-supplied protected map**: every payload, external data, key, nonce choice,
+    unprotected map as in `enc0_roundtrip`, and any non-empty protected map with distinct in-range labels and scalar /
+    list values, in any entry order, that `Encrypt` accepts: the decoder returns a protected map answering every
+    look-up like the original, the AAD is built over the very protected bytes that were emitted, and `Decrypt` gives
+    back the payload. -/
+theorem enc0_roundtrip_prot (payload ext : Option Bytes) (prot : CMap) (unprot : Hdr) (e : Encryptor) (rnd : Bytes)
+    (hcorr : AeadCorrect e) (hrnd : rnd ≠ [])
+    (hne : prot ≠ []) (hokp : ∀ kv ∈ prot, EntryOk kv) (hndp : (prot.map (·.1)).Nodup) (hlenp : prot.length ≤ maxElems)
+    (hpbl : ∀ pb, encodeCMap prot = some pb → pb.length < two64)
+    (m1 : Msg) (h : produceEnc ⟨.encrypt0, some prot, unprot, .bytes payload, none⟩ e ext rnd = .ok m1)
+    (w : Wire) (hw : m1.mm = some w) (fm : CMap) (hfm : w.unprot = some fm)
+    (hok : ∀ kv ∈ fm, EntryOk kv) (hnd : (fm.map (·.1)).Nodup) (hlen : fm.length ≤ maxElems)
+    (hiv : fm.lookup (Msg.lbl Iana.HeaderParameterIV) ≠ some .bnil)
+    (hpiv : fm.lookup (Msg.lbl Iana.HeaderParameterPartialIV) ≠ some .bnil)
+    (hcl : ∀ x, w.payload = some x → x.length < two64) :
+    ∃ bytes m2 pm, marshal .encrypt0 w = some bytes ∧ unmarshal .encrypt0 .raw bytes = .ok m2 ∧
+      m2.prot = some pm ∧ (∀ l, pm.lookup l = (prot.lookup l).map normV) ∧
+      decryptEnc m2 .raw e ext = .ok (.bytes (nonEmpty payload)) := by
+  obtain ⟨pb, pm, hencp, hpbytes, hpm, hlookp, hmmeq⟩ := supplied_bucket prot e.key.alg hne hokp hndp hlenp
+  unfold produceEnc at h
+  simp only [fillProtected] at h
+  by_cases hmis : algMismatch prot e.key.alg = true
+  · simp [hmis] at h
+  have hmis' : algMismatch prot e.key.alg = false := by
+    cases hq : algMismatch prot e.key.alg with
+    | false => rfl
+    | true => exact absurd hq hmis
+  simp only [hmis, Bool.false_eq_true, if_false] at h
+  have key : ∃ iv fm' aad ct, w = { prot := some pb, unprot := some fm', payload := some ct } ∧
+      tobe .encrypt0 { prot := some pb, unprot := some fm', payload := none } none ext = .ok aad ∧
+      e.encrypt iv (payload.getD []) aad = .ok ct ∧
+      selectNonce fm' e.key e.nonceSize = .ok (.given iv) := by
+    obtain ⟨u0, hu0⟩ : ∃ u0, u0 = fillUnprotected unprot e.key := ⟨_, rfl⟩
+    rw [← hu0] at h
+    cases hsel : selectNonce u0 e.key e.nonceSize with
+    | err er => simp [hsel] at h
+    | panic er => simp [hsel] at h
+    | ok choice =>
+      simp only [hsel, hpbytes, payloadToWire] at h
+      cases choice with
+      | given iv =>
+        simp only at h
+        cases htb : tobe .encrypt0 { prot := some pb, unprot := some u0, payload := none } none ext with
+        | err er => simp [htb] at h
+        | panic er => simp [htb] at h
+        | ok aad =>
+          simp only [htb] at h
+          cases henc : e.encrypt iv (payload.getD []) aad with
+          | err er => simp [henc] at h
+          | panic er => simp [henc] at h
+          | ok ct =>
+            simp only [henc, Res.ok.injEq] at h
+            subst h
+            simp only [Option.some.injEq] at hw
+            exact ⟨iv, u0, aad, ct, hw.symm, htb, henc, hsel⟩
+      | random =>
+        simp only at h
+        obtain ⟨u1, hu1⟩ : ∃ u1, u1 = u0.set (Msg.lbl Iana.HeaderParameterIV) (.bytes rnd) := ⟨_, rfl⟩
+        rw [← hu1] at h
+        cases htb : tobe .encrypt0 { prot := some pb, unprot := some u1, payload := none } none ext with
+        | err er => simp [htb] at h
+        | panic er => simp [htb] at h
+        | ok aad =>
+          simp only [htb] at h
+          cases henc : e.encrypt rnd (payload.getD []) aad with
+          | err er => simp [henc] at h
+          | panic er => simp [henc] at h
+          | ok ct =>
+            simp only [henc, Res.ok.injEq] at h
+            subst h
+            simp only [Option.some.injEq] at hw
+            exact ⟨rnd, u1, aad, ct, hw.symm, htb, henc, by rw [hu1]; exact selectNonce_after_publish _ _ _ _ hrnd hsel⟩
+  obtain ⟨iv, fm', aad, ct, hwe, htb, henc, hsel2⟩ := key
+  subst hwe
+  simp only [Option.some.injEq] at hfm
+  subst hfm
+  obtain ⟨bytes, uh, hmar, hun, hlook⟩ := enc0_decode pb ct fm' .raw hok hnd hlen (hpbl pb hencp) (hcl ct rfl) pm hpm
+  refine ⟨bytes, _, pm, hmar, hun, rfl, hlookp, ?_⟩
+  have hs : selectNonce uh e.key e.nonceSize = .ok (.given iv) := by
+    rw [selectNonce_congr fm' uh e.key e.nonceSize
+      (getBytes_lookup_norm fm' uh hok hnd hlook _ hiv) (getBytes_lookup_norm fm' uh hok hnd hlook _ hpiv)]
+    exact hsel2
+  have htb2 : tobe .encrypt0 { prot := some pb, unprot := some uh, payload := none } none ext = .ok aad := by
+    rw [← htb]; unfold tobe; rfl
+  have hmm : algMismatch pm e.key.alg = false := by rw [hmmeq]; exact hmis'
+  unfold decryptEnc
+  simp only [Option.getD_some, hmm, Bool.false_eq_true, if_false, htb2, hs, NonceChoice.ivOrEmpty,
+    hcorr iv _ aad ct henc]
+  cases payload with
+  | none => rfl
+  | some l => cases l <;> rfl
 
 /-! ## named byte-slice payloads (`key.ByteStr`, `type Blob []byte`)
 
